@@ -1,7 +1,9 @@
 package props
 
 import (
+	"flag"
 	"fmt"
+	"hash/fnv"
 	"io"
 	"math"
 	"os"
@@ -12,6 +14,7 @@ import (
 	"time"
 
 	wt "github.com/hnakamur/whispertool"
+	wcmd "github.com/hnakamur/whispertool/cmd"
 
 	"verif/fw"
 	"verif/model"
@@ -144,9 +147,154 @@ type Executor interface{ Execute() error }
 var TrackLocks bool
 var LockLeaks []string
 
+// FlagsEvery: when > 0, about one in FlagsEvery commands (chosen by a hash of their options, so that a replay makes the
+// same choice) is not executed as the struct the check built but re-created from command-line arguments through the
+// command's own Parse: options must mean on the command line what the fields mean.
+var FlagsEvery = 5
+
+// ViaFlags returns the command re-created by its Parse from the arguments that spell out cmd's fields, or nil when
+// this command is not chosen or cannot be spelled (a required option is empty).
+func ViaFlags(cmd Executor) Executor {
+	if FlagsEvery <= 0 {
+		return nil
+	}
+	ts := func(name string, t wt.Timestamp) []string {
+		if t == 0 {
+			return nil
+		}
+		return []string{"-" + name, t.String()}
+	}
+	lay := func(m wt.AggregationMethod, x float32, l wt.ArchiveInfoList) []string {
+		var a []string
+		if m != 0 {
+			a = append(a, "-agg-method", m.String())
+		}
+		if x != 0 {
+			a = append(a, "-x-files-factor", strconv.FormatFloat(float64(x), 'g', -1, 32))
+		}
+		if l != nil {
+			a = append(a, "-retentions", l.String())
+		}
+		return a
+	}
+	var args []string
+	// an option whose value is the documented default is left out: the default must be what the documentation says
+	str := func(name, v, def string) {
+		if v != def {
+			args = append(args, "-"+name, v)
+		}
+	}
+	boolean := func(name string, v, def bool) {
+		if v != def {
+			args = append(args, "-"+name+"="+strconv.FormatBool(v))
+		}
+	}
+	archive := func(id int) {
+		if id != -1 {
+			args = append(args, "-archive", strconv.Itoa(id))
+		}
+	}
+	window := func(from, until wt.Timestamp) {
+		args = append(args, ts("from", from)...)
+		args = append(args, ts("until", until)...)
+	}
+	var fresh interface {
+		Parse(fs *flag.FlagSet, args []string) error
+		Execute() error
+	}
+	switch c := cmd.(type) {
+	case *wcmd.ViewCommand:
+		str("src-base", c.SrcBase, "")
+		str("src", c.SrcRelPath, "")
+		archive(c.ArchiveID)
+		str("text-out", c.TextOut, "-")
+		boolean("header", c.ShowHeader, true)
+		window(c.From, c.Until)
+		fresh = &wcmd.ViewCommand{}
+	case *wcmd.ViewRawCommand:
+		str("src-base", c.SrcBase, "")
+		str("src", c.SrcRelPath, "")
+		archive(c.ArchiveID)
+		str("text-out", c.TextOut, "-")
+		boolean("header", c.ShowHeader, true)
+		boolean("sort", c.SortsByTime, false)
+		window(c.From, c.Until)
+		fresh = &wcmd.ViewRawCommand{}
+	case *wcmd.DiffCommand:
+		str("src-base", c.SrcBase, "")
+		str("src", c.SrcRelPath, "")
+		str("dest-base", c.DestBase, "")
+		str("dest", c.DestRelPath, "")
+		archive(c.ArchiveID)
+		str("text-out", c.TextOut, "-")
+		window(c.From, c.Until)
+		fresh = &wcmd.DiffCommand{}
+	case *wcmd.CopyCommand:
+		str("src-base", c.SrcBase, "")
+		str("src", c.SrcRelPath, "")
+		str("dest-base", c.DestBase, "")
+		str("dest", c.DestRelPath, "")
+		archive(c.ArchiveID)
+		str("text-out", c.TextOut, "-")
+		boolean("copy-nan", c.CopyNaN, false)
+		window(c.From, c.Until)
+		args = append(args, lay(c.AggregationMethod, c.XFilesFactor, c.ArchiveInfoList)...)
+		fresh = &wcmd.CopyCommand{}
+	case *wcmd.SumCommand:
+		str("src-base", c.SrcBase, "")
+		str("item", c.ItemPattern, "")
+		str("src", c.SrcPattern, "")
+		archive(c.ArchiveID)
+		str("text-out", c.TextOut, "-")
+		boolean("header", c.ShowHeader, true)
+		window(c.From, c.Until)
+		fresh = &wcmd.SumCommand{}
+	case *wcmd.SumCopyCommand:
+		str("src-base", c.SrcBase, "")
+		str("item", c.ItemPattern, "")
+		str("src", c.SrcPattern, "")
+		str("dest-base", c.DestBase, "")
+		str("dest", c.DestRelPath, "")
+		archive(c.ArchiveID)
+		str("text-out", c.TextOut, "-")
+		window(c.From, c.Until)
+		args = append(args, lay(c.AggregationMethod, c.XFilesFactor, c.ArchiveInfoList)...)
+		fresh = &wcmd.SumCopyCommand{}
+	case *wcmd.SumDiffCommand:
+		str("src-base", c.SrcBase, "")
+		str("item", c.ItemPattern, "")
+		str("src", c.SrcPattern, "")
+		str("dest-base", c.DestBase, "")
+		str("dest", c.DestRelPath, "")
+		archive(c.ArchiveID)
+		str("text-out", c.TextOut, "-")
+		window(c.From, c.Until)
+		fresh = &wcmd.SumDiffCommand{}
+	default:
+		return nil
+	}
+	h := fnv.New32a()
+	for _, a := range args {
+		h.Write([]byte(a))
+		h.Write([]byte{0})
+	}
+	if h.Sum32()%uint32(FlagsEvery) != 0 {
+		return nil
+	}
+	fs := flag.NewFlagSet("x", flag.ContinueOnError)
+	fs.SetOutput(io.Discard)
+	if err := fresh.Parse(fs, args); err != nil {
+		return nil // a required option is empty in the struct: the check wants exactly that request, run it as built
+	}
+	return fresh
+}
+
 func RunCommand(now int64, cmd Executor) (err error, panicTxt string) {
 	vrt.SetNow(now)
 	defer vrt.SetNow(0)
+	if f := ViaFlags(cmd); f != nil {
+		cmd = f
+	}
 	if TrackLocks {
 		old := debug.SetGCPercent(-1)
 		vrt.BeginLockLog()
